@@ -3893,11 +3893,13 @@ func (a *Association) resetStreamsIfAny(resetRequest *paramOutgoingResetRequest)
 			if !ok {
 				continue
 			}
+			// Out of the table first: the reader woken below may open the
+			// identifier again at once and must not be handed this stream.
+			a.log.Debugf("[%s] deleting stream %d", a.name, id)
+			delete(a.streams, s.streamIdentifier)
 			a.lock.Unlock()
 			s.onInboundStreamReset()
 			a.lock.Lock()
-			a.log.Debugf("[%s] deleting stream %d", a.name, id)
-			delete(a.streams, s.streamIdentifier)
 		}
 		delete(a.reconfigRequests, resetRequest.reconfigRequestSequenceNumber)
 		a.rememberPeerResetPerformed(resetRequest.reconfigRequestSequenceNumber)
